@@ -174,18 +174,57 @@ func gunYAML(kv map[string]string, csvFile, jsonFile string) string {
 					if p[0] == 'j' {
 						fmt.Fprintf(&b, "      - \"type\": \"var/jsonpath\"\n        \"mapping\": {%s: %s}\n", yq(kvp[0]), yq("$."+kvp[1]))
 					} else {
-						fmt.Fprintf(&b, "      - \"type\": \"var/header\"\n        \"mapping\": {%s: %s}\n", yq(kvp[0]), yq(kvp[1]))
+						// <Header>/<modifier>/… is the mapping value `Header|modifier|…`
+						fmt.Fprintf(&b, "      - \"type\": \"var/header\"\n        \"mapping\": {%s: %s}\n", yq(kvp[0]), yq(strings.ReplaceAll(kvp[1], "/", "|")))
 					}
 				case 'a':
-					fmt.Fprintf(&b, "      - \"type\": \"assert/response\"\n        \"status_code\": %s\n", p[1:])
+					assertYAML(&b, []string{"s" + p[1:]})
 				case 't':
-					fmt.Fprintf(&b, "      - \"type\": \"assert/response\"\n        \"body\": [%s]\n", yq(p[1:]))
+					assertYAML(&b, []string{"b" + p[1:]})
+				case 'z':
+					assertYAML(&b, []string{p})
+				case 'A':
+					assertYAML(&b, strings.Split(p[1:], "+"))
 				}
 			}
 		}
 	}
 	yamlScenarios(&b, parseSc(kv["sc"]))
 	return b.String()
+}
+
+// assertYAML prints one assert/response block from its conditions:
+// s<code> (status_code) | b<text> (body pattern) | y<Header>~<text> (header contains) | z<op><val> (size; op e,E,l,L,g,G = eq,=,lt,<,gt,>)
+func assertYAML(b *strings.Builder, conds []string) {
+	b.WriteString("      - \"type\": \"assert/response\"\n")
+	var bodies, hdrs []string
+	for _, c := range conds {
+		if c == "" {
+			continue
+		}
+		switch c[0] {
+		case 's':
+			fmt.Fprintf(b, "        \"status_code\": %s\n", c[1:])
+		case 'b':
+			bodies = append(bodies, yq(c[1:]))
+		case 'y':
+			f := strings.SplitN(c[1:], "~", 2)
+			if len(f) == 2 {
+				hdrs = append(hdrs, yq(f[0])+": "+yq(f[1]))
+			}
+		case 'z':
+			if len(c) > 2 {
+				op := map[byte]string{'e': "eq", 'E': "=", 'l': "lt", 'L': "<", 'g': "gt", 'G': ">"}[c[1]]
+				fmt.Fprintf(b, "        \"size\": {\"val\": %s, \"op\": %s}\n", c[2:], yq(op))
+			}
+		}
+	}
+	if len(bodies) > 0 {
+		fmt.Fprintf(b, "        \"body\": [%s]\n", strings.Join(bodies, ", "))
+	}
+	if len(hdrs) > 0 {
+		fmt.Fprintf(b, "        \"headers\": {%s}\n", strings.Join(hdrs, ", "))
+	}
 }
 
 type gunConf struct {
@@ -298,7 +337,17 @@ func (in *instance) ServeHTTP(w http.ResponseWriter, r *http.Request) {
 	}
 	tok := fmt.Sprintf("%dx%d", in.idx, k)
 	okBody := fmt.Sprintf(`{"tok":"T%s","n":%d}`, tok, k)
+	w.Header().Set("X-Kind", "Resp-"+code)
+	w.Header().Set("Content-Type", "application/json")
 	switch {
+	case code == "t":
+		// a fault in the middle of the response: the headers announce more body than is sent before the connection closes
+		conn, buf, err := w.(http.Hijacker).Hijack()
+		if err == nil {
+			_, _ = buf.WriteString("HTTP/1.1 200 OK\r\nContent-Type: application/json\r\nContent-Length: 64\r\nX-Tok: H" + tok + "\r\n\r\n{\"tok\":")
+			_ = buf.Flush()
+			_ = conn.Close()
+		}
 	case code == "g" || (code == "c" && r.Method != "POST"):
 		conn, buf, err := w.(http.Hijacker).Hijack()
 		if err == nil {
